@@ -370,7 +370,7 @@ class Interp:
                                 break
         return out
 
-    def freshen(self, v, S, key, efacts=(), _path=(), elem_of=None, prov=None, off=None):
+    def freshen(self, v, S, key, efacts=(), _path=(), elem_of=None, prov=None, off=None, from_end=None):
         """Copy of a summary value with fresh symbols (one concrete element of a smashed sequence).
         elem_of = (len symbol of the sequence, index symbol, block): remember which element this is."""
         m = {}
@@ -400,7 +400,7 @@ class Interp:
                     self.elem_idx_term[s] = S.term(elem_of[1])  # the index as known when the element was read
         if prov and self.hooks:
             for h in self.hooks:
-                h("elem_read", interp=self, prov=prov, off=off, value=out, state=S, index=(elem_of[1] if elem_of is not None and not isinstance(elem_of[1], tuple) else None))
+                h("elem_read", interp=self, prov=prov, off=off, value=out, state=S, index=(elem_of[1] if elem_of is not None and not isinstance(elem_of[1], tuple) else None), from_end=from_end)
         return out
 
     # ------------------------------------------------------------------ memory
@@ -486,7 +486,7 @@ class Interp:
                     k = len(v.elems) - off if fe else off
                     v = v.elems[k] if 0 <= k < len(v.elems) else BOT
                 elif isinstance(v, Seq):
-                    v = self.freshen(v.elem, S, site + (n,), v.efacts, elem_of=((v.len, ("ci", off), site[1] if len(site) > 1 else None) if not fe else None), prov=v.prov, off=(None if fe else off)) if v.elem is not None else BOT
+                    v = self.freshen(v.elem, S, site + (n,), v.efacts, elem_of=((v.len, ("ci", off), site[1] if len(site) > 1 else None) if not fe else None), prov=v.prov, off=(None if fe else off), from_end=(off if fe else None)) if v.elem is not None else BOT
                     if mk is not None:
                         S.emem[mk] = (seq0, v)
                 else:
